@@ -14,7 +14,7 @@ META = {
     "explanation": "If the enumeration offered by completion and the lookup used by go-to-definition are two implementations of one "
                    "scope walk, then every offered name resolves and nothing resolvable is left out only if the two agree on order and "
                    "on the kinds of module items they treat as values. That agreement is decided from the MIR; the exact set for every "
-                   "program is behavioural.",
+                   "program is behavioural. X18 resolve_import tests the visibility of each declaration on its own (no take_while / any / find / first over the declarations of a name).",
     "not_decided": "exactly the names visible at every hole of every program; fields offered after `value.` for every type.",
     "trusted_base": ["rustc MIR"],
     "assumptions": [],
